@@ -28,7 +28,12 @@ def ls_reference(X, Y, Z):
 
 def check(run, driver):
     from causationentropy.core.information.conditional_mutual_information import conditional_mutual_information, gaussian_conditional_mutual_information
+    from common import EntryPoints as _EP     # the star re-exports of causationentropy.core.information are public paths too
+    conditional_mutual_information = _EP("conditional_mutual_information", "causationentropy.core.information.conditional_mutual_information", "causationentropy.core.information")
+    gaussian_conditional_mutual_information = _EP("gaussian_conditional_mutual_information", "causationentropy.core.information.conditional_mutual_information", "causationentropy.core.information")
     from causationentropy.core.information.mutual_information import gaussian_mutual_information
+    from common import EntryPoints as _EP     # the star re-exports of causationentropy.core.information are public paths too
+    gaussian_mutual_information = _EP("gaussian_mutual_information", "causationentropy.core.information.mutual_information", "causationentropy.core.information")
 
     run.rule = (
         "random well-conditioned samples: N in dim+2..60, k_x,k_y in 1..2, k_z in 0..3, random means, per-column scales 1e-3..1e3, mixing with "
